@@ -45,4 +45,9 @@ CLAIMED = {
   text="All ordered pairs of the enumerated universe (restricted to RubyGems' own VERSION_PATTERN) are compared on the real code against the port of Gem::Version's canonical-segment comparison.",
   note="Trusted base: engine/ref/gem.go, asserted on every run against RubyGems' documented examples; no ruby exists in this image, so the port is not conformance-checked against an executable RubyGems.",
   ref="DESIGN.md 4 (C13), Appendix A.6"),
+ "C14": dict(
+  technique="bounded-exhaustive enumeration of well-formed apk versions (1-5 components, letter, 0-3 suffixes of the nine names, -rN) x all ordered pairs with equal component count on the real Compare against a Go model of the apk-tools token order",
+  text="All ordered same-arity pairs of the enumerated well-formed universe are compared on the real code against the model of the order the property restates; the model is itself checked on every run against every in-domain row of the repository's copy of apk-tools' version.data.",
+  note="Trusted base: engine/ref/apk.go; no apk binary exists in this image. Differing component counts, leading zeros and ~hash are not claimed.",
+  ref="DESIGN.md 4 (C14), Appendix A.7"),
 }
